@@ -52,7 +52,7 @@ def nontrivial(case):
 
 
 def typed_prog(rng, cfg):
-    p = buildprog.gen_prog(rng, cfg=cfg, nsec=rng.randint(2, 7), nseg=rng.randint(0, 2), allow_nested=False)
+    p = buildprog.gen_prog(rng, cfg=cfg, nsec=rng.randint(2, 7), nseg=rng.randint(0, 2), allow_nested=False, bss_focus=(rng.random() < 0.12))
     # give the sections outside segments a spread of types (the layout does not depend on the type, except no-bits)
     lines = []
     for l in p.lines:
